@@ -150,6 +150,40 @@ var dicts = [][]byte{
 	[]byte("never used dictionary"),
 }
 
+// bigDicts are two incompressible 2 KiB dictionaries: a chunk that is an excerpt of one of
+// them compresses far better with it than without (so the Writer picks it), any other chunk
+// does not. Selected by Config.Resources = 11 (first only), 12 (both), 13 (both + an unused one).
+var bigDicts = func() (d [3][]byte) {
+	x := uint32(12345)
+	for k := range d {
+		d[k] = make([]byte, 2048)
+		for i := range d[k] {
+			x = x*1664525 + 1013904223
+			d[k][i] = byte(x >> 24)
+		}
+	}
+	return
+}()
+
+// dictPayload builds nChunks chunks of chunkLen bytes: chunk i is an excerpt of bigDicts[use[i]-1]
+// when use[i] is 1 or 2, and unrelated incompressible bytes otherwise.
+func dictPayload(nChunks, chunkLen int, use map[int]int) []byte {
+	p := make([]byte, 0, nChunks*chunkLen)
+	x := uint32(99)
+	for i := 0; i < nChunks; i++ {
+		if u := use[i]; u > 0 {
+			off := (i * 37) % (len(bigDicts[u-1]) - chunkLen)
+			p = append(p, bigDicts[u-1][off:off+chunkLen]...)
+			continue
+		}
+		for j := 0; j < chunkLen; j++ {
+			x = x*22695477 + 1
+			p = append(p, byte(x>>24))
+		}
+	}
+	return p
+}
+
 func codecWriter(name string) rac.CodecWriter {
 	switch name {
 	case "zlib":
@@ -205,6 +239,12 @@ func runWriter(cfg Config, payload []byte) (o outcome) {
 	}
 	for i := 0; i < cfg.Resources && i < 3; i++ {
 		w.ResourcesData = append(w.ResourcesData, dicts[i])
+	}
+	if cfg.Resources > 10 {
+		w.ResourcesData = nil
+		for i := 0; i < cfg.Resources-10 && i < 3; i++ {
+			w.ResourcesData = append(w.ResourcesData, bigDicts[i])
+		}
 	}
 	defer func() {
 		if e := recover(); e != nil {
@@ -363,6 +403,15 @@ func checkOne(r *ev.Run, st *stats, cfg Config, payload []byte, hist map[string]
 		return o.wOps, o.tOps, true
 	}
 	hist[fmt.Sprintf("leaves:%d", bucket(len(leaves)))]++
+	if cfg.Resources > 0 {
+		nd := 0
+		for _, l := range leaves {
+			if l.Secondary[1] > l.Secondary[0] {
+				nd++
+			}
+		}
+		hist[fmt.Sprintf("leaves-using-a-shared-dictionary:%d", bucket(nd))]++
+	}
 	// (2) the real Reader returns the payload
 	got, rerr, rp := readBack(o.file)
 	if rp != "" {
@@ -662,6 +711,45 @@ func main() {
 			add(Config{Codec: "zlib", DChunk: 1, AtStart: loc, CPage: 4, Partition: uniformPartition(n, 100)}, p)
 		}
 	}
+	// shared dictionaries that are really chosen (chunks of 400 bytes, so that the codec
+	// writers consider dictionaries at all), around the arity-255 boundary where a branch
+	// node must list the resources its own children use: dictionary users at chunk {a, s}
+	// for every s near the boundaries, x 1 or 2 dictionaries x index location x codec.
+	{
+		type du struct {
+			n   int
+			use map[int]int
+		}
+		var fam []du
+		for _, n := range []int{3, 300} {
+			fam = append(fam, du{n, map[int]int{}}, du{n, map[int]int{0: 1}}, du{n, map[int]int{1: 1, 2: 2}}, du{n, map[int]int{0: 2, n - 1: 1}})
+		}
+		lo, hi := 249, 259
+		if thorough {
+			lo, hi = 240, 270
+		}
+		for s := lo; s <= hi; s++ {
+			fam = append(fam, du{300, map[int]int{10: 1, s: 1}}, du{300, map[int]int{10: 1, s: 2}}, du{300, map[int]int{s: 1, s + 1: 2, 299: 1}})
+		}
+		all := map[int]int{}
+		for i := 0; i < 520; i++ {
+			all[i] = 1 + i%2
+		}
+		fam = append(fam, du{520, all})
+		for _, f := range fam {
+			p := dictPayload(f.n, 400, f.use)
+			for _, res := range []int{11, 12, 13} {
+				for _, loc := range []bool{false, true} {
+					for _, codec := range []string{"zlib", "zstd"} {
+						if codec == "zstd" && (f.n > 3 || res != 12) {
+							continue // zstd writers are expensive to set up; one point
+						}
+						add(Config{Codec: codec, DChunk: 400, AtStart: loc, Resources: res, Partition: []int{len(p)}}, p)
+					}
+				}
+			}
+		}
+	}
 	if thorough {
 		p := mk(255*255+3, "alt")
 		add(Config{Codec: "lz4", DChunk: 1, Partition: []int{len(p)}}, p)
@@ -744,7 +832,7 @@ func main() {
 		DistinctNontrivial: st.nontrivial.Load() + faultPoints.Load(),
 		Rule: "A: every payload over {00,01,'a'} up to length L x every partition into Write calls x DChunkSize{1,2,3,7,64} x index location x CPageSize{0,4}; " +
 			"B: every alternation of 4..N zero/non-zero runs with run lengths {1,2,3,5} x uniform write steps {1,2,3,5,all} x CChunkSize set; " +
-			"C: structured payloads x {zlib,lz4,zstd} x sizing x page size x index location/temp-file kind x resources x partitions, incl. the arity-255 boundary; " +
+			"C: structured payloads x {zlib,lz4,zstd} x sizing x page size x index location/temp-file kind x resources x partitions, incl. the arity-255 boundary, and 300/520-chunk files whose chunks really use 1-2 shared dictionaries at every position near the branch boundaries; " +
 			"D: for each base configuration every fault point k of the underlying Writer and TempFile (fail-from-k and fail-once). Oracles: independent spec validator, rac.Reader round trip, independent zlib walker; faults: Close non-nil and sticky. " +
 			"non-trivial = successful file with more than one leaf, or a fault-point run",
 		Exhaustive: true,
